@@ -252,6 +252,82 @@ def path_clash_schema(rng):
         {'pathclash.%d_way%s' % (len(cuts), '_in_group' if inside_group else ''): 1}
 
 
+# ------------------------------------------------------------------ (a') exhaustive small scope: one identifier, one position
+
+def base_schema():
+    """one entity of every kind; every name below is a `position` of the sweep"""
+    types = std_headers() + [
+        {'k': 'type', 'name': 'Ts', 'prim': 'uint32'},
+        {'k': 'type', 'name': 'To', 'prim': 'int16', 'presence': 'optional'},
+        {'k': 'type', 'name': 'Ta', 'prim': 'char', 'length': 4},
+        {'k': 'type', 'name': 'Tk', 'prim': 'uint16', 'presence': 'constant', 'const': '9'},
+        {'k': 'type', 'name': 'Tks', 'prim': 'char', 'presence': 'constant', 'const': 'abc', 'length': 3},
+        {'k': 'enum', 'name': 'En', 'enc': 'uint8', 'values': [{'name': 'Ev1', 'value': '1'}, {'name': 'Ev2', 'value': '2'}]},
+        {'k': 'set', 'name': 'St', 'enc': 'uint8', 'choices': [{'name': 'Sc1', 'index': 0}, {'name': 'Sc2', 'index': 1}]},
+        {'k': 'composite', 'name': 'Co2', 'elems': [{'k': 'type', 'name': 'c2_t', 'prim': 'uint8'}]},
+        {'k': 'composite', 'name': 'Co', 'elems': [
+            {'k': 'type', 'name': 'ce_t', 'prim': 'uint32'},
+            {'k': 'type', 'name': 'ce_k', 'prim': 'uint8', 'presence': 'constant', 'const': '3'},
+            {'k': 'type', 'name': 'ce_a', 'prim': 'uint8', 'length': 2},
+            {'k': 'enum', 'name': 'ce_e', 'enc': 'char', 'values': [{'name': 'cev', 'value': 'A'}]},
+            {'k': 'set', 'name': 'ce_s', 'enc': 'uint16', 'choices': [{'name': 'cec', 'index': 3}]},
+            {'k': 'composite', 'name': 'ce_c', 'elems': [{'k': 'type', 'name': 'cc_t', 'prim': 'int8'}]},
+            {'k': 'ref', 'name': 'ce_r', 'type': 'Ts'},
+            {'k': 'ref', 'name': 'ce_rc', 'type': 'Co2'},
+            {'k': 'ref', 'name': 'ce_re', 'type': 'En'}]},
+    ]
+    dim, var = 'groupSizeEncoding', 'varDataEncoding'
+    msgs = [{'name': 'Ms', 'id': 1, 'fields': [
+        {'name': 'f_p', 'id': 1, 'type': 'uint32'}, {'name': 'f_t', 'id': 2, 'type': 'Ts'},
+        {'name': 'f_o', 'id': 3, 'type': 'To'}, {'name': 'f_a', 'id': 4, 'type': 'Ta'},
+        {'name': 'f_k', 'id': 5, 'type': 'Tk'}, {'name': 'f_e', 'id': 6, 'type': 'En'},
+        {'name': 'f_s', 'id': 7, 'type': 'St'}, {'name': 'f_c', 'id': 8, 'type': 'Co'},
+        {'name': 'f_ke', 'id': 9, 'type': 'En', 'presence': 'constant', 'valueRef': 'En.Ev1'}],
+        'groups': [
+            {'name': 'Gr', 'id': 10, 'dim': dim, 'fields': [{'name': 'g_f', 'id': 11, 'type': 'uint8'}],
+             'groups': [{'name': 'Gn', 'id': 12, 'dim': dim, 'fields': [{'name': 'n_f', 'id': 13, 'type': 'Ts'}],
+                         'groups': [], 'datas': [{'name': 'n_d', 'id': 14, 'type': var}]}],
+             'datas': [{'name': 'g_d', 'id': 15, 'type': var}]},
+            {'name': 'Gr2', 'id': 16, 'dim': dim, 'fields': [{'name': 'g2_k', 'id': 17, 'type': 'Tk'}], 'groups': [],
+             'datas': []},
+            {'name': 'Gr3', 'id': 18, 'dim': dim, 'fields': [{'name': 'g3_f', 'id': 19, 'type': 'uint16'}], 'groups': [],
+             'datas': []}],
+        'datas': [{'name': 'Da', 'id': 20, 'type': var}, {'name': 'Db', 'id': 21, 'type': var}]},
+        {'name': 'Ms2', 'id': 2, 'fields': [{'name': 'm2_f', 'id': 1, 'type': 'uint8'}], 'groups': [], 'datas': []}]
+    return {'package': 'ns', 'id': 1, 'version': 0, 'byteOrder': 'littleEndian', 'types': types, 'messages': msgs}
+
+
+POSITIONS = ['Ts', 'To', 'Ta', 'Tk', 'Tks', 'En', 'Ev1', 'St', 'Sc1', 'Co2', 'c2_t', 'Co', 'ce_t', 'ce_k', 'ce_a', 'ce_e',
+             'cev', 'ce_s', 'cec', 'ce_c', 'cc_t', 'ce_r', 'ce_rc', 'ce_re', 'Ms', 'f_p', 'f_t', 'f_o', 'f_a', 'f_k', 'f_e',
+             'f_s', 'f_c', 'f_ke', 'Gr', 'g_f', 'Gn', 'n_f', 'n_d', 'g_d', 'Gr2', 'g2_k', 'Gr3', 'g3_f', 'Da', 'Db', 'Ms2',
+             'm2_f', 'messageHeader', 'groupSizeEncoding', 'varDataEncoding']
+
+
+def rename(obj, old, new):
+    """replace the name `old` (declaration and every reference) by `new`"""
+    if isinstance(obj, dict):
+        out = {}
+        for k, v in obj.items():
+            if k in ('name', 'type', 'enc', 'dim', 'headerType') and v == old:
+                out[k] = new
+            elif k == 'valueRef' and isinstance(v, str):
+                a, _, b = v.partition('.')
+                out[k] = '%s.%s' % (new if a == old else a, new if b == old else b)
+            else:
+                out[k] = rename(v, old, new)
+        return out
+    if isinstance(obj, list):
+        return [rename(x, old, new) for x in obj]
+    return obj
+
+
+def sweep_schema(ident, position):
+    sch = rename(base_schema(), position, ident)
+    if position == 'messageHeader':
+        sch['headerType'] = ident
+    return sch
+
+
 # ------------------------------------------------------------------ (b) literal boundary stream
 
 INT_RANGE = {'char': (-128, 127), 'int8': (-128, 127), 'uint8': (0, 255), 'int16': (-32768, 32767),
@@ -727,12 +803,9 @@ class TU:
             self.common_traits(tr, e, has_desc=True)
             if tk != 'const':
                 self.use('%s::offset()' % tr)
-            if tk == 'enum':
-                for v in target['values']:
-                    self.use('::sbepp::enum_value_traits<%s::%s>::name()' % (tag, v['name']))
-            if tk == 'set':
-                for c in target['choices']:
-                    self.use('::sbepp::set_choice_traits<%s::%s>::index()' % (tag, c['name']))
+            # (tags nested in the referred type are reachable through the ref tag by inheritance; that path is not
+            # a documented one and is not exercised: `C::r::r` names a constructor when the referred type has a
+            # member called like the ref)
             return
         if k == 'type':
             tr = '::sbepp::type_traits<%s>' % tag
@@ -866,12 +939,6 @@ class TU:
                 self.access_value(view, f['name'], tk, ftag)
                 self.emit('tu::use(%s.%s(cur)); %s.%s(%s.%s(), ::sbepp::cursor_ops::dont_move(cur)); tu::use(c%s.%s(ccur));'
                           % (view, f['name'], view, f['name'], view, f['name'], view, f['name']))
-                if tk == 'enum':
-                    for v in target['values']:
-                        self.use('::sbepp::enum_value_traits<%s::%s>::name()' % (ftag, v['name']))
-                if tk == 'set':
-                    for c in target['choices']:
-                        self.use('::sbepp::set_choice_traits<%s::%s>::index()' % (ftag, c['name']))
             elif tk == 'array':
                 self.use('sizeof(%s::value_type<char>)' % tr)
                 self.access_value(view, f['name'], tk, ftag)
@@ -882,9 +949,6 @@ class TU:
                 self.emit('{ auto %s = %s.%s(); auto c%s = c%s.%s(); tu::use(::sbepp::get_by_tag<%s>(%s)); tu::use(%s.%s(cur)); tu::use(c%s.%s(ccur));'
                           % (sub, view, f['name'], sub, view, f['name'], ftag, view, view, f['name'], view, f['name']))
                 self.composite_access(sub, target, '::%s::schema::types::%s' % (self.ns, target['name']))
-                # the field tag gives access to the element tags as well
-                for x in target['elems']:
-                    self.use('sizeof(%s::%s)' % (ftag, x['name']))
                 self.emit('}')
         for g in lvl.get('groups', []):
             self.entities += 1
